@@ -33,7 +33,7 @@ CHECKS: dict[str, tuple[str, str, str, str]] = {
         " prunes/yields accordingly, that every call chain enumerating files forwards the include flags, the"
         " VCS strategy and the subset unchanged, and that VCS readers' flags and separators agree. Necessary"
         " structural conditions decided for all paths/names; Git's own ignore answer is an external run-time"
-        " oracle and is not decided. VCS membership tests (is_ignored / is_submodule of every strategy) compare paths of the same base (units-of-measure check: query made root-relative, collected sets root-relative); the report's file list is subset_files(F) whenever F was given, even empty. Paths printed by VCS commands keep their exact spelling (no whitespace strip, no lossy decode). The argv of git's ignored-files query equals the confirmed flag set, and VCS commands inherit the caller's environment (env= must extend os.environ).",
+        " oracle and is not decided. VCS membership tests (is_ignored / is_submodule of every strategy) compare paths of the same base (units-of-measure check: query made root-relative, collected sets root-relative); the report's file list is subset_files(F) whenever F was given, even empty. Paths printed by VCS commands keep their exact spelling (no whitespace strip, no lossy decode). FileReport equality, if defined, includes the file's full path (reports are collected in a set). The argv of git's ignored-files query equals the confirmed flag set, and VCS commands inherit the caller's environment (env= must extend os.environ).",
         "Trusted: CPython ast, re._parser, sa/relang.py, sa/tab.py, sa/fold.py. Names exclude '/', NUL, CR, LF.",
         "DESIGN.md §3 C03",
     ),
@@ -180,7 +180,7 @@ CHECKS: dict[str, tuple[str, str, str, str]] = {
         " (newline=''), line endings are detected before normalisation and the same variable is the newline= of the"
         " write to the same file; that shebang extraction precedes header creation and feeds `before`; that the three"
         " text sections are chained slices of one string; that a BOM is split off before processing and written back"
-        " first. Byte-for-byte preservation of arbitrary bodies is run-time string behaviour and not decided. Every comment_at_first_character returns a prefix of its argument (its length is used as the cut offset). A first-line declaration is split off a block only when nothing but blanks precedes that block (decision table of find_and_replace_header). The header text is proven encodable before the truncating open (shared with C11-R10). The line-ending detector is read as a model (presence priority list or frequency count with CRLF subtracted, over the whole text): presence alone cannot tell an LF file with a stray CR from a CR file.",
+        " first. Byte-for-byte preservation of arbitrary bodies is run-time string behaviour and not decided. Every comment_at_first_character returns a prefix of its argument (its length is used as the cut offset). A first-line declaration is split off a block only when nothing but blanks precedes that block (decision table of find_and_replace_header). The header text is proven encodable before the truncating open (shared with C11-R10). The file is read strictly (no errors= mode that rewrites undecodable bytes). The line-ending detector is read as a model (presence priority list or frequency count with CRLF subtracted, over the whole text): presence alone cannot tell an LF file with a stray CR from a CR file.",
         "Trusted: ast, sa/tab.py.",
         "DESIGN.md §3 C08",
     ),
@@ -216,7 +216,7 @@ CHECKS: dict[str, tuple[str, str, str, str]] = {
         " lie within what click turns into a diagnostic; each other pair is a violation unless it is one of nine named,"
         " reasoned infeasible origins whose side conditions are checked. Plus: parsed TOML values are type-checked"
         " before being iterated/indexed, the per-file isolation handler is as broad as Exception, parse errors carry"
-        " or receive the file name. OS faults outside the modelled exceptions are not decided. Bytes are decoded with an error mode whose result can be encoded again (no surrogateescape / surrogatepass). str.format is applied to constant format strings only, and a format spec only to str / int / float values (mypy type where not evident); ordering values whose element type is Any counts as a TypeError source. Presence of a TOML key is decided by `is None`, never by truthiness; set() over raw converter parameters and constant indices into split text are exception sources (T2).",
+        " or receive the file name. OS faults outside the modelled exceptions are not decided. Bytes are decoded with an error mode whose result can be encoded again (no surrogateescape / surrogatepass). str.format is applied to constant format strings only, and a format spec only to str / int / float values (mypy type where not evident); ordering values whose element type is Any counts as a TypeError source. Every REUSE.toml glob - also one whose meaning is unspecified - translates to a well-formed regular expression (shared with C05). Presence of a TOML key is decided by `is None`, never by truthiness; set() over raw converter parameters and constant indices into split text are exception sources (T2).",
         "Trusted: ast, mypy's resolution and MROs, table T2. Known findings are keyed by exception and origin construct.",
         "DESIGN.md §3 C16",
     ),
@@ -242,7 +242,7 @@ CHECKS: dict[str, tuple[str, str, str, str]] = {
         " (_MultiprocessingContainer.__call__) is applied to an object the task created itself (freshness analysis with"
         " return summaries; two named exceptions for the lazy dep5 memo), so no state is carried from one file to the"
         " next. Listing order of output is deliberately not a sink. Independence of cwd and of"
-        " the spelling of --root depends on run-time path arithmetic and is not decided. Glob patterns built from run-time paths escape them; sorted() with a key that can tie over a set is an order hazard. VCS membership tests compare paths of the same base and VCS output keeps its spelling and is not decoded lossily (shared with C03). The report drivers do not mutate the Project they are handed (same freshness analysis). Both operands of a path-prefix comparison in the nested REUSE.toml lookup are spelled the same way - as given or normalised (R13). Inside the LICENSES/ scan every membership test on a container the scan itself fills is about keys the scan never adds, or one of three reads confirmed order-symmetric (R12).",
+        " the spelling of --root depends on run-time path arithmetic and is not decided. Glob patterns built from run-time paths escape them; sorted() with a key that can tie over a set is an order hazard. VCS membership tests compare paths of the same base and VCS output keeps its spelling and is not decoded lossily (shared with C03). The report drivers do not mutate the Project they are handed (same freshness analysis). Both operands of a path-prefix comparison in the nested REUSE.toml lookup are spelled the same way - as given or normalised (R13). A plain store into a container the scan fills is preceded by a refusal of a second writer on that same container. Inside the LICENSES/ scan every membership test on a container the scan itself fills is about keys the scan never adds, or one of three reads confirmed order-symmetric (R12).",
         "Trusted: ast, mypy types/callees, table T3 (sorted, list.sort, boolean.py simplify sorts operands).",
         "DESIGN.md §3 C14",
     ),
